@@ -1069,6 +1069,9 @@ class DiskRefsContainer(RefsContainer):
                     # want to affect packed refs in here
                     with suppress(OSError):
                         os.remove(self.refpath(ref))
+                    # do not leave the now possibly empty directories behind:
+                    # they would stand in the way of a ref of that name
+                    self._remove_empty_parents(ref)
 
                     if target is not None:
                         packed_refs[ref] = target
